@@ -3,6 +3,7 @@ import ScVerif.C19.Electric
 import ScVerif.C19.Events
 import ScVerif.C19.Named
 import ScVerif.C19.Keyed
+import ScVerif.C19.Icpt
 /-! Driver handler for C19 (stateful: one electric model per driver process, `reset` starts afresh).  The state is
 the KEYED model (`Keyed.lean`: records stored under keys); on states where every record carries its key it is the
 model of `Electric.lean` (`C19_keyed_refines`), and its events are those of `Events.lean` (`C19_keyed_events`).
@@ -10,6 +11,8 @@ model of `Electric.lean` (`C19_keyed_refines`), and its events are those of `Eve
 ```
 reset | config <active mode> <mode;mode;…|->      (initial state: NewModel with WithInitialMode / WithInitialActiveMode)
 kconfig <active mode> <k<keyhex>=mode;…|->        (WithModeOption(resource.WithInitialRecord(key, mode))…)
+iconfig lower <active mode> <k<keyhex>=mode;…|->  (the same plus WithModeOption(resource.WithIDInterceptor(strings.ToLower)):
+                                                   the following operations run `ikstep` of Icpt.lean)
 find <id>
 create <mode> <cands>      add <mode>        update <mode> <mask> [w<createIfAbsent 0|1><expectAbsent 0|1> <expected mode|->
                                                                      [<reset mask> <check name|-> <before name|-> <after name|->]]
@@ -194,5 +197,42 @@ def handleS (k : KSt) (toks : List String) : KSt × String :=
       let evs := s!" events=[{";".intercalate ((kmodeEvents k op).map showEvent)}] active-events=[{";".intercalate ((kactiveEvents k op).map showMode)}]"
       (k', showRes r ++ " " ++ showSt k'.abs ++ evs)
     | none => (k, "!bad-op")
+
+/-- the driver's state: the keyed model and whether the mode collection was configured with a lower-casing id
+interceptor (`iconfig lower`); without it the operations run `kstep` (= `ikstep` with the identity, `C19_icpt_identity`) -/
+structure DSt where
+  lower : Bool
+  k : KSt
+
+def DSt.init : DSt := ⟨false, KSt.init⟩
+
+/-- `strings.ToLower` on the ids the harness uses (ASCII) -/
+def lowerId (s : String) : String := s.toLower
+
+def handleD (d : DSt) (toks : List String) : DSt × String :=
+  match toks with
+  | ["iconfig", "lower", a, rs] =>
+    match parseMode? a, (if rs = "-" then some [] else (rs.splitOn ";").mapM parseRec?) with
+    | some a, some rs =>
+      match KSt.iconfig? lowerId rs a with
+      | some k0 => (⟨true, k0⟩, "ok " ++ showSt k0.abs)
+      | none => (DSt.init, "panic")
+    | _, _ => (d, "!bad-op")
+  | _ =>
+    let fresh := match toks with
+      | ["reset"] => true
+      | "config" :: _ => true
+      | "kconfig" :: _ => true
+      | _ => false
+    if fresh || !d.lower then
+      let (k', s) := handleS d.k toks
+      if s = "!bad-op" then (d, s) else (⟨d.lower && !fresh, k'⟩, s)
+    else
+      match parseOp? toks with
+      | some op =>
+        let (k', r) := ikstep lowerId d.k op
+        let evs := s!" events=[{";".intercalate ((ikmodeEvents lowerId d.k op).map showEvent)}] active-events=[{";".intercalate ((ikactiveEvents lowerId d.k op).map showMode)}]"
+        (⟨true, k'⟩, showRes r ++ " " ++ showSt k'.abs ++ evs)
+      | none => (d, "!bad-op")
 
 end ScVerif.C19
